@@ -82,6 +82,83 @@ func ruleDeepCopy(c *Ctx, rule string) {
 			c.Check(rule, key, l.Pos(st.Pos()), !shared, "component is copied (Copy() or rebuilt)", "the copy shares this mutable component with the original: a script's change through one VM's copy is visible in every other copy (and in the Bytecode constant)")
 		})
 	}
+	// elements of containers: an element of the receiver placed into the result as it
+	// is must have failed the Copier test (it is a scalar); a bulk copy() of the
+	// receiver's elements tests nothing
+	for _, T := range objectTypes(l, modPath) {
+		if !types.Implements(T, ci) {
+			continue
+		}
+		fn := l.Method(modPath, namedOf(T).Obj().Name(), "Copy")
+		if fn == nil || len(fn.Blocks) == 0 {
+			continue
+		}
+		recv := fn.Params[0]
+		fromRecv := func(x ssa.Value) bool {
+			return derivesFrom(x, func(v ssa.Value) bool { return v == ssa.Value(recv) }, 4)
+		}
+		isElem := func(v ssa.Value) bool {
+			switch x := v.(type) {
+			case *ssa.Extract:
+				if nx, ok := x.Tuple.(*ssa.Next); ok && x.Index == 2 {
+					if rg, ok := nx.Iter.(*ssa.Range); ok {
+						return fromRecv(rg.X)
+					}
+				}
+			case *ssa.UnOp:
+				if ia, ok := x.X.(*ssa.IndexAddr); ok && x.Op == token.MUL {
+					return fromRecv(ia.X)
+				}
+			case *ssa.Lookup:
+				return fromRecv(x.X)
+			}
+			return false
+		}
+		notCopier := func(v ssa.Value, at *ssa.BasicBlock) bool {
+			for _, g := range guardEdges(at) {
+				ex, ok := g.If.Cond.(*ssa.Extract)
+				if !ok || ex.Index != 1 || g.Truth {
+					continue
+				}
+				if ta, ok := ex.Tuple.(*ssa.TypeAssert); ok && ta.CommaOk && ta.X == v && types.Identical(ta.AssertedType, copier) {
+					return true
+				}
+			}
+			return false
+		}
+		eachInstr(fn, func(ins ssa.Instruction) {
+			var val ssa.Value
+			switch x := ins.(type) {
+			case *ssa.MapUpdate:
+				val = x.Value
+			case *ssa.Store:
+				if _, ok := x.Addr.(*ssa.IndexAddr); ok {
+					val = x.Val
+				}
+			case *ssa.Call:
+				if b, ok := x.Call.Value.(*ssa.Builtin); ok && b.Name() == "copy" && len(x.Call.Args) == 2 && fromRecv(x.Call.Args[1]) {
+					if sl, ok := x.Call.Args[1].Type().Underlying().(*types.Slice); ok {
+						if _, isI := sl.Elem().Underlying().(*types.Interface); isI {
+							n++
+							c.Bad(rule, fmt.Sprintf("%s.Copy | copy() of the receiver's elements", tstr(T)), l.Pos(x.Pos()), "the elements of the receiver are copied in bulk: nested arrays and maps are shared between the copy and the original (a builtin module's nested values are then shared by every VM)")
+						}
+					}
+				}
+				return
+			default:
+				return
+			}
+			if val == nil || !isElem(val) {
+				return
+			}
+			if _, isI := val.Type().Underlying().(*types.Interface); !isI {
+				return // plain data (positions, numbers): nothing to share
+			}
+			n++
+			c.Check(rule, fmt.Sprintf("%s.Copy | element of the receiver placed into the result", tstr(T)), l.Pos(ins.Pos()), notCopier(val, ins.Block()), "only on the branch where the element is not a Copier",
+				"an element of the receiver is placed into the copy as it is without having failed the Copier test: nested containers are shared between the copy and the original")
+		})
+	}
 	if n == 0 {
 		c.Und(rule, "Copy methods", "-", "no Copier-typed component found in any Copy method")
 	}
